@@ -180,6 +180,44 @@ OPSTR = {"or": " or ", "and": " and ", "eq": " = ", "ne": " != ", "lt": " < ", "
 NSMAP = {"p": "urn:p", "q": "urn:q"}
 
 
+def ends_with_bare_root(e):
+    """does the printed form of e end with the token '/' (an absolute path with no steps)?"""
+    t = e[0]
+    if t in OPSTR:
+        return ends_with_bare_root(e[2])
+    if t == "neg":
+        return ends_with_bare_root(e[1])
+    if t == "union":
+        return ends_with_bare_root(e[1][-1])
+    if t == "path":
+        _, head, preds, steps = e
+        return head is None and len(steps) == 1 and steps[0][0] == "root"
+    return False
+
+
+def fix_bare_root(e):
+    """XPath 1.0 section 3.7: after the operator token '/', a following '*' or NCName (div, mod, and,
+    or) is a name test, not an operator, so '/ div 2' is a syntax error by the Recommendation.
+    Wrap a left operand whose text ends in a bare '/' in parentheses when such an operator follows."""
+    t = e[0]
+    if t in OPSTR:
+        a, b = fix_bare_root(e[1]), fix_bare_root(e[2])
+        if t in ("or", "and", "mult", "div", "mod") and ends_with_bare_root(a):
+            a = ("group", a)
+        return (t, a, b)
+    if t in ("neg", "group"):
+        return (t, fix_bare_root(e[1]))
+    if t == "union":
+        return (t, [fix_bare_root(a) for a in e[1]])
+    if t == "fn":
+        return (t, e[1], [fix_bare_root(a) for a in e[2]]) + tuple(e[3:])
+    if t == "path":
+        _, head, preds, steps = e
+        fp = lambda ps: [(f, fix_bare_root(x)) for f, x in ps]
+        return (t, None if head is None else fix_bare_root(head), fp(preds), [(ax, ts, fp(ps)) for ax, ts, ps in steps])
+    return e
+
+
 class ExprGen:
     def __init__(self, r, nodes=None, depth=3, variables=None):
         self.r, self.depth0 = r, depth
@@ -191,7 +229,7 @@ class ExprGen:
         ty = ty or self.r.choice(["nodes", "nodes", "num", "bool", "str", "any"])
         if ty == "any":
             ty = self.r.choice(["nodes", "num", "bool", "str"])
-        return getattr(self, "g_" + ty)(d)
+        return fix_bare_root(getattr(self, "g_" + ty)(d))
 
     def wrap(self, e, parent_prec, right=False):
         """insert an explicit group where the printed form would otherwise re-associate"""
